@@ -81,17 +81,24 @@ def replay_cppgen_case(case):
             return bad
         if d['kind'] == 'block':
             lines = ['int x;', 'int y;'][:d['lines']]
-            nsp = cpp.Namespace(scoping.ns_ids_t(list(d['ids'])), contents=TextBlock(lines))
+
+            def contents():
+                if d.get('ck') == 'header':
+                    return TextBlock(lines, header='int h;')
+                if d.get('ck') == 'comment':
+                    return cpp.Comment(lines)
+                return TextBlock(lines)
+            nsp = cpp.Namespace(scoping.ns_ids_t(list(d['ids'])), contents=contents())
             got = tokenize(str(nsp))
             if got != case['ns']:
                 bad.append(('namespace block', case['ns'], got))
             if str(nsp).count('{') != str(nsp).count('}'):
                 bad.append(('balanced braces', True, False))
-            stc = (cpp.Struct if d['kw'] == 'struct' else cpp.Class)('S', TextBlock(lines))
+            stc = (cpp.Struct if d['kw'] == 'struct' else cpp.Class)('S', contents())
             got = tokenize(str(stc))
             if got != case['st']:
                 bad.append((f'{d["kw"]} block', case['st'], got))
-            if lines and not all(ln in str(stc).split('\n') for ln in lines):
+            if lines and d.get('ck') != 'comment' and not all(ln in str(stc).split('\n') for ln in lines):
                 bad.append(('contents unchanged', lines, str(stc)))
             return bad
         try:
